@@ -194,6 +194,24 @@ class BuildFailed(Exception):
     pass
 
 
+class CorpusBuildFailed(Exception):
+    """the repository builds, but a corpus crate of /verif no longer compiles against it"""
+
+    def __init__(self, name, output):
+        Exception.__init__(self, name)
+        self.name = name
+        self.output = output
+
+    def first_errors(self, n=3):
+        out = []
+        lines = self.output.splitlines()
+        for i, l in enumerate(lines):
+            if l.startswith("error"):
+                loc = lines[i + 1].strip() if i + 1 < len(lines) else ""
+                out.append(l.strip() + " " + loc)
+        return out[:n], len(out)
+
+
 def ensure_corpus_facts(name, src_dir, crates, log=sys.stderr, extra_gen=None, extra_key=""):
     """Facts for a corpus crate in /verif (catalogue, controls) that path-depends on the repo.
     The crate is copied into the cache with the dependency path rewritten to REPO, so that
@@ -230,7 +248,9 @@ def ensure_corpus_facts(name, src_dir, crates, log=sys.stderr, extra_gen=None, e
         t0 = time.time()
         r = _run_cargo(work, [], list(crates) + ["deserr", "deserr_internal"], facts_dir, target_dir, run_id, log)
         if r.returncode != 0:
-            raise BuildFailed("cargo check failed for corpus %s:\n%s" % (name, r.stdout[-8000:]))
+            # is it the repository that does not build, or only the corpus against it?
+            ensure_lib_facts("default", log=log)   # raises BuildFailed when the library itself is broken
+            raise CorpusBuildFailed(name, r.stdout)
         files = sorted(f for f in os.listdir(facts_dir) if f.endswith(".json") and f != "stamp.json")
         need = {c + ".json" for c in crates} | {"deserr.json", "deserr_internal.json"}
         if not need.issubset(files):
